@@ -205,6 +205,17 @@ impl Model {
         }
     }
 
+    /// Prefixes of a definition: `\\global` (if asked for) in every position among `\\long` and
+    /// `\\outer`, which change nothing that the probes observe. The choice is a function of the
+    /// body id.
+    fn pre_def(g: bool, body: u32) -> &'static str {
+        if g {
+            ["\\global", "\\long\\global", "\\global\\long", "\\outer\\global", "\\long\\outer\\global", "\\global"][body as usize % 6]
+        } else {
+            ["", "", "\\long", "\\outer", "", "\\outer\\long"][body as usize % 6]
+        }
+    }
+
     fn reg_value_text(kind: RegKind, v: (i32, i32)) -> String {
         match kind {
             RegKind::Count => format!("{}", v.0),
@@ -418,7 +429,7 @@ impl Model {
                 Op::Def { g, gdef, t, body } => {
                     text.push_str(&format!(
                         "{}{}{}{{{}}}",
-                        Self::pre(*g),
+                        Self::pre_def(*g, *body),
                         if *gdef { "\\gdef" } else { "\\def" },
                         t.tex(),
                         macro_body(*body)
